@@ -87,7 +87,8 @@ extern MPT_STRUCT(buffer) *mpt_array_reserve(MPT_STRUCT(array) *arr, size_t len,
 	/* clear incompatible data on non-shared buffer */
 	if ((old != traits)) {
 		void (*fini)(void *) = 0;
-		if (!old || !(fini = old->fini) || !traits || (fini != traits->fini)) {
+		/* compatible types share finalizer and element size */
+		if (!old || !(fini = old->fini) || !traits || (fini != traits->fini) || (old->size != traits->size)) {
 			if (fini) {
 				size_t pos, used = buf->_used, size = old->size;
 				used -= used % size;
